@@ -154,7 +154,7 @@ spec fn opens_child(cp: &ChildPath, depth: Option<usize>) -> bool {
 spec fn next_depth(depth: Option<usize>) -> usize { match depth { None => 0, Some(d) => (d + 1) as usize } }
 
 //@fn expand.rs render_child_fragment
-//@props C03,C16
+//@props C03,C16,C17
 //@spec
     requires
         child_path.child_path_str@.len() >= 1 && child_path.child_path_str@.len() == child_path.child_path.pseq().len(), // #path-has-a-segment [C16]
@@ -167,7 +167,7 @@ spec fn next_depth(depth: Option<usize>) -> usize { match depth { None => 0, Som
             find_child_data(&dt_attrs(*ctx.input), ctx.struct_attr.ty, cps(child_path, Some(next_depth(depth)))) is Some, // #child_parents-entry-exists [C16]
     ensures
         // deeper levels remain: open the nested struct named by the next path segment
-        (opens_child(child_path, depth) && k_is_into(ctx.kind)) ==> ({
+        (opens_child(child_path, depth) && k_is_into(ctx.kind) && !ctx.has_post_init) ==> ({
             let nd = next_depth(depth);
             let cd = find_child_data(&dt_attrs(*ctx.input), ctx.struct_attr.ty, cps(child_path, Some(nd)))->0;
             let fc = Some((*child_path, Some(ChildRenderContext { ty: &cpd_ty(*cd), type_hint: cpd_hint(*cd) }), nd));
@@ -175,7 +175,8 @@ spec fn next_depth(depth: Option<usize>) -> usize { match depth { None => 0, Som
                 + cpd_ty(*cd).toks() + sib_toks(old(fields).pitems(), (*ctx.input)->Struct_0.named_fields, cview(*ctx), fc) + p(",")
             &&& final(fields).pitems() == sib_rest(old(fields).pitems(), (*ctx.input)->Struct_0.named_fields, cview(*ctx), fc)
         }), // #into-opens-the-next-nested-struct
-        (opens_child(child_path, depth) && k_is_into_existing(ctx.kind)) ==> ({
+        // into_existing, and a body that pours a bare #[parent] into `obj`: nothing is constructed, the members assign through the path [C17]
+        (opens_child(child_path, depth) && (k_is_into_existing(ctx.kind) || (k_is_into(ctx.kind) && ctx.has_post_init))) ==> ({
             let nd = next_depth(depth);
             let fc = Some((*child_path, crc_of(find_child_data(&dt_attrs(*ctx.input), ctx.struct_attr.ty, cps(child_path, Some(nd)))), nd));
             &&& r@ == sib_toks(old(fields).pitems(), (*ctx.input)->Struct_0.named_fields, cview(*ctx), fc)
